@@ -222,6 +222,11 @@ Section Structure.
     - apply replace_nth_length.
   Qed.
 
+  (* zeros_like of a transformed message delegates to the base message (tzeros_via_base) *)
+  Lemma transformed_zeros V s i l h (a : msgT) : tzeros_via_base V = true -> keep_limits V = true ->
+    eval O V [MT s i l h a] (EZeros (EVar 0)) = Some (MT s i l h (b_zeros O a)).
+  Proof. intros Z K. simpl. unfold rewrap. rewrite Z, K. reflexivity. Qed.
+
   (* the arithmetic of a transformed message is the arithmetic of its base *)
   Lemma transformed_div_mul V s i l h (a : msgT) s' i' l' h' (b : msgT) :
     eval O V [MT s i l h a; MT s' i' l' h' b] (EDiv (EMul (EVar 0) (EVar 1)) (EVar 1))
